@@ -69,7 +69,10 @@ def native_case(draw):
     big = draw(st.integers(0, 4)) == 0
     prog = draw(P.program(max_pops=5 if big else 4))
     units = draw(st.sampled_from(['generations', 'generations', 'years']))
-    return dict(prog=prog, units=units, gt=draw(st.sampled_from([25.0, 0.37, 1.0])), via=draw(st.sampled_from(['Demes.SFS', 'Demes.SFS', 'from_demes'])))
+    # Demes.SFS also takes one selection coefficient and dominance for all demes (relative to the reference size)
+    sel = draw(st.sampled_from([None, None, None, [-2.0, 0.5], [1.5, 0.2], [-0.7, 0.8], [-2.0, None]]))
+    return dict(prog=prog, units=units, gt=draw(st.sampled_from([25.0, 0.37, 1.0])), sel=sel, listing=draw(st.one_of(st.none(), st.integers(0, 1000))),
+                via='Demes.SFS' if sel else draw(st.sampled_from(['Demes.SFS', 'Demes.SFS', 'from_demes'])))
 
 
 @REG.relation('R1-graph-equals-native', strategy=native_case, quick=(400, 16), thorough=(6000, 16))
@@ -78,11 +81,18 @@ def r1(case, rec):
     populations), whether the graph is in generations or years."""
     prog = case['prog']
     f, lab, nt = feats(prog)
-    rec.case(case, nt, lab + [case['units'], case['via']])
+    sel = case.get('sel')
+    rec.case(case, nt, lab + [case['units'], case['via']] + (['shuffled listing'] if case.get('listing') is not None else []) + (['selection' + (' h!=0.5' if sel[1] not in (None, 0.5) else '')] if sel else []))
     with dadi_call('native program'):
-        fs_n, names, frozen = P.run_native(prog, True)
-    g, sampled, times = P.to_demes(prog, time_units=case['units'], generation_time=case['gt'] if case['units'] != 'generations' else None)
-    fs_d = sfs(g, sampled, times, prog, via='Demes.SFS' if case['via'] == 'Demes.SFS' else 'Spectrum.from_demes')
+        fs_n, names, frozen = P.run_native(prog, True, **(dict(gamma=sel[0], h=0.5 if sel[1] is None else sel[1]) if sel else {}))
+    g, sampled, times = P.to_demes(prog, time_units=case['units'], generation_time=case['gt'] if case['units'] != 'generations' else None,
+                                   listing=case.get('listing'))
+    skw = {}
+    if sel:
+        skw['gamma'] = sel[0]
+        if sel[1] is not None:
+            skw['h'] = sel[1]
+    fs_d = sfs(g, sampled, times, prog, via='Demes.SFS' if case['via'] == 'Demes.SFS' else 'Spectrum.from_demes', **skw)
     require(fs_d.shape == fs_n.shape, 'graph spectrum has shape %s, native %s' % (fs_d.shape, fs_n.shape))
     m = ~np.ma.getmaskarray(fs_n)
     require_close(data(fs_d)[m], data(fs_n)[m], TOL, 'spectrum from the demes graph (%s, %s) vs the native dadi program [%s]' % (
@@ -100,7 +110,8 @@ def meta_case(draw):
 @REG.relation('R2-units-scale-order', strategy=meta_case, quick=(240, 16), thorough=(4000, 16))
 def r2(case, rec):
     """The graph's spectrum is unchanged in other time units, relative to another reference size (sizes and times x c, rates / c),
-    and sampled demes listed in another order only permute the axes."""
+    the order in which ancestors, pulse sources and migrations are written down does not matter, and sampled demes listed in another
+    order only permute the axes."""
     prog = case['prog']
     f, lab, nt = feats(prog)
     rec.case(case, nt and (case['c'] < 0.8 or case['c'] > 1.25), lab)
@@ -117,6 +128,11 @@ def r2(case, rec):
     g4, s4, t4 = P.to_demes(prog, time_units='years', generation_time=case['gt'], scale=case['c'])
     kw = dict(Ne=prog['N0'] * case['c']) if case['give_Ne'] else {}
     require_close(data(sfs(g4, s4, t4, prog, **kw)), base, TOL, 'graph rescaled by %.4g in years%s' % (case['c'], ' with Ne given' if kw else ''), rec, key='rescaled+units')
+    # the same graph written down differently: ancestors / pulse sources (with their proportions) and migrations in another order
+    for ls in (case['perm_seed'], case['perm_seed'] + 1):
+        g5, s5, t5 = P.to_demes(prog, listing=ls)
+        require_close(data(sfs(g5, s5, t5, prog)), base, TOL, 'the same graph with ancestors, pulse sources and migrations listed in another order',
+                      rec, key='listing order')
     # sampled demes in another order
     k = len(sampled)
     if k >= 2:
